@@ -35,6 +35,15 @@ def zl(vs):
     return "[" + "; ".join(z(v) for v in vs) + "]"
 
 
+def hx(vs):
+    """a byte list as one hexadecimal literal (decoded by EmitterTie.hx)"""
+    if not vs:
+        return "[]"
+    if any(v < 0 or v > 255 for v in vs):
+        return zl(vs)
+    return "(hx 0x1" + "".join("%02x" % v for v in vs) + ")"
+
+
 def bl(b):
     return "true" if b else "false"
 
@@ -49,13 +58,13 @@ def g_op(rec):
     if k == "call":
         o = rec["op"]
         tr = {"none": "TNone", "rep": "(TRep %d)" % o["c"], "sep": "(TSep %d)" % o["c"]}[o["track"]]
-        return "(SOp (OIns %s %s %d%%N %s %s))" % (o["kind"], zl(o["bytes"]), o["label"], tr, GUARD[o["guard"]])
+        return "(SOp (OIns %s %s %d%%N %s %s))" % (o["kind"], hx(o["bytes"]), o["label"], tr, GUARD[o["guard"]])
     if k == "setbase":
         return "(SOp (OSetBase %s))" % z(st.get("v", 0))
     if k == "label":
         return "(SOp (OLabel %d%%N))" % st.get("v", 0)
     if k == "bytes":
-        return "(SOp (OEmitBytes %s))" % zl(st.get("d") or [])
+        return "(SOp (OEmitBytes %s))" % hx(st.get("d") or [])
     if k == "comment":
         return "(SOp (OComment %d%%N))" % st.get("v", 0)
     if k == "arep":
@@ -71,14 +80,14 @@ def g_op(rec):
     raise ValueError("step kind " + k)
 
 
-def g_obs(o):
+def g_obs(o, bytes_=None):
     labels = "[" + "; ".join("None" if v < 0 else "Some %d" % v for v in o["labels"]) + "]"
-    return "(mkObs %s %d %d %d %d %d %s %s %s)" % (zl(o["bytes"]), o["len"], o["cap"], o["pc"], o["flags"], o["base"],
+    return "(mkObs %s %d %d %d %d %d %s %s %s)" % (hx(o["bytes"] if bytes_ is None else bytes_), o["len"], o["cap"], o["pc"], o["flags"], o["base"],
                                                     bl(o["m16"]), bl(o["x16"]), labels)
 
 
 def g_render(r):
-    ls = "; ".join("mkR %s %d %s %d%%N %s" % (KIND[x["k"]], x["addr"], zl(x["bytes"]), x["l"], bl(x["warn"])) for x in r["lines"])
+    ls = "; ".join("mkR %s %d %s %d%%N %s" % (KIND[x["k"]], x["addr"], hx(x["bytes"]), x["l"], bl(x["warn"])) for x in r["lines"])
     return "([%s], %s)" % (ls, bl(r["panic"]))
 
 
@@ -97,6 +106,7 @@ def g_fin(f):
 
 def g_case(c):
     steps = []
+    prev = []
     for r in c["steps"]:
         if r.get("same"):
             sec = "SSame"
@@ -104,9 +114,14 @@ def g_case(c):
             sec = "(SFull %s)" % g_obs(r["second"])
         else:
             sec = "SNone"
-        steps.append("mkS %s %s %s %s" % (g_op(r), bl(r["panic"]), g_obs(r["top"]), sec))
+        cur = r["top"]["bytes"]
+        keep = 0
+        while keep < len(prev) and keep < len(cur) and prev[keep] == cur[keep]:
+            keep += 1
+        steps.append("mkS %s %s %d %s %s" % (g_op(r), bl(r["panic"]), keep, g_obs(r["top"], cur[keep:]), sec))
+        prev = cur
     f = c["final"]
-    fin = "(mkF %s %s %s %s %s %s)" % (g_render(f["hex1"]), g_render(f["text1"]), g_fin(f["fin"]), zl(f["bytes"]),
+    fin = "(mkF %s %s %s %s %s %s)" % (g_render(f["hex1"]), g_render(f["text1"]), g_fin(f["fin"]), hx(f["bytes"]),
                                        g_render(f["hex2"]), g_render(f["text2"]))
     return "(mkC %d %s %s %d%%N\n  [%s]\n  %s)" % (c["id"], bl(c["gen"]), g_target(c["nil"], c["cap"], c["fill"]), c["nl"],
                                                  ";\n   ".join(steps), fin)
@@ -233,14 +248,252 @@ def falsify(ck, harness, which):
     return fails, stats
 
 
-def run_c19(ck):
+PROP_HDR = """From Coq Require Import ZArith NArith List Bool.
+From Lib Require Import ZList.
+From Model Require Import Emitter.
+From Props Require Import EmitterProps.
+Import ListNotations.
+Local Open Scope Z_scope.
+"""
+
+C19_V = PROP_HDR + """(* C19 against Model/Emitter.v; the model is tied to the tree under test by the Cases_EM_* files of this run *)
+(* Len <= Cap in every state reachable through NewEmitter, any accepted or refused call, Clone, Append, Finalize *)
+Theorem C19_len_le_cap : forall e, reachable e -> 0 <= Len e <= Cap e.
+Proof. exact len_le_cap. Qed.
+(* a refused call leaves bytes, Len, Cap, PC, every label and the base as they were.  Tracked flags and listing
+   records are NOT in the list: REP/SEP update the tracker and EmitBytes appends its listing lines before the
+   capacity check (Examples refused_rep_updates_tracker, refused_emitbytes_appends_listing) *)
+Theorem C19_refused_call_leaves : forall o e e', exec o e = Refused e' ->
+  Bytes e' = Bytes e /\\ Len e' = Len e /\\ Cap e' = Cap e /\\ PC e' = PC e /\\
+  (forall l, GetLabel l e' = GetLabel l e) /\\ GetBase e' = GetBase e.
+Proof. exact refused_leaves. Qed.
+Theorem C19_refused_append_leaves : forall cb a e a', Append cb a e = Refused a' -> a' = a.
+Proof. exact append_refused_leaves. Qed.
+(* which calls are refused: a width guard or a duplicate label, or -- only with a non-nil target -- capacity *)
+Theorem C19_refused_iff : forall o e, is_refused (exec o e) = pre_refused o e || cap_refused o e.
+Proof. exact refused_iff. Qed.
+(* nil target vs a target in which nothing is refused for capacity: same PC, labels, tracked flags and same refused
+   calls after EVERY prefix of ANY history; the nil-target emitter counts nothing *)
+Theorem C19_dry_run : forall ops b g k,
+  no_cap_refusal ops (new_em (Some b) g) = true ->
+  let dry := run (firstn k ops) (new_em None g) in
+  let real := run (firstn k ops) (new_em (Some b) g) in
+  PC (fst dry) = PC (fst real) /\\ (forall l, GetLabel l (fst dry) = GetLabel l (fst real)) /\\
+  Flags (fst dry) = Flags (fst real) /\\ IsM16bit (fst dry) = IsM16bit (fst real) /\\
+  IsX16bit (fst dry) = IsX16bit (fst real) /\\ snd dry = snd real /\\ Len (fst dry) = 0.
+Proof. exact dry_run_agrees. Qed.
+(* "big enough" is implied by: capacity >= sum of the sizes of all instructions and data blocks of the history *)
+Theorem C19_room_suffices : forall ops e, inv e -> buf e <> None ->
+  n e + total_demand ops <= zlen (code e) -> no_cap_refusal ops e = true.
+Proof. exact room_suffices. Qed.
+Print Assumptions C19_len_le_cap.
+Print Assumptions C19_refused_call_leaves.
+Print Assumptions C19_refused_append_leaves.
+Print Assumptions C19_refused_iff.
+Print Assumptions C19_dry_run.
+Print Assumptions C19_room_suffices.
+"""
+
+C16_STMT = """forall ops k target0 g target,
+  let e0 := new_em target0 g in
+  let a := fst (run (firstn k ops) e0) in
+  let c := fst (run (skipn k ops) (Clone target a)) in
+  (target0 = None <-> target = None) ->
+  no_cap_refusal (skipn k ops) a = true ->
+  no_cap_refusal (skipn k ops) (Clone target a) = true ->
+  is_refused (Append %s a c) = false /\\
+  observe (state_of (Append %s a c)) = observe (fst (run ops e0))"""
+
+C16_TRUE_V = PROP_HDR + """(* C16 for the Append the tree implements (decided by the tie of this run): base is copied *)
+(* observe = Bytes, Len, Cap, PC, Flags, GetBase, every label, both listings, and for every pair of visiting
+   orders the Finalize outcome, the finalized bytes and both listings after Finalize *)
+Theorem C16_clone_append : """ + (C16_STMT % ("true", "true")) + """.
+Proof. exact C16_holds_with_base_copy. Qed.
+(* stronger, state level: the two emitters are EQUAL, and the same calls were refused *)
+Theorem C16_clone_append_state : forall t a target,
+  inv a -> maps_sorted a -> (buf a = None <-> target = None) ->
+  no_cap_refusal t a = true -> no_cap_refusal t (Clone target a) = true ->
+  Append true a (fst (run t (Clone target a))) = Done (fst (run t a)) /\\
+  snd (run t (Clone target a)) = snd (run t a).
+Proof. exact clone_append_state. Qed.
+Theorem C16_room : forall ops k b g bc,
+  let e0 := new_em (Some b) g in
+  let a := fst (run (firstn k ops) e0) in
+  let c := fst (run (skipn k ops) (Clone (Some bc) a)) in
+  total_demand ops <= zlen b -> total_demand (skipn k ops) <= zlen bc ->
+  observe (state_of (Append true a c)) = observe (fst (run ops e0)).
+Proof. exact clone_append_room. Qed.
+Theorem C16_refused_append_leaves : forall cb a e a', Append cb a e = Refused a' -> a' = a.
+Proof. exact append_refused_leaves. Qed.
+Theorem C16_append_refused_iff : forall cb a e, is_refused (Append cb a e) = (zlen (code a) <? n a + n e).
+Proof. exact append_refused_iff. Qed.
+Print Assumptions C16_clone_append.
+Print Assumptions C16_clone_append_state.
+Print Assumptions C16_room.
+Print Assumptions C16_refused_append_leaves.
+Print Assumptions C16_append_refused_iff.
+"""
+
+C16_FALSE_V = PROP_HDR + """(* the tree's Append does not copy base: for that emitter C16 is REFUTED (witness: SetBase in the cloned tail) *)
+Theorem C16_refuted : ~ (""" + (C16_STMT % ("false", "false")) + """).
+Proof. exact C16_fails_without_base_copy. Qed.
+Print Assumptions C16_refuted.
+"""
+
+
+def prop_file(ck, name, text, thms):
+    """Compile a per-run property file; one obligation per theorem."""
+    pv = os.path.join(vlib.RUN, name)
+    os.makedirs(vlib.RUN, exist_ok=True)
+    vlib.write_if_changed(pv, text)
+    fresh = vlib.static_vo_fresh(pv)
+    ck.oblige("static library up to date (coq/Model/Emitter.vo, coq/Props/EmitterProps.vo newer than their sources)", fresh,
+              "run ./check --setup")
+    rc, out, dt, cached = vlib.coqc(pv, timeout=600)
+    for t in thms:
+        ck.oblige("Theorem " + t, rc == 0 and fresh, out)
+    blocks = vlib.parse_assumptions(out)
+    ck.assumptions += blocks
+    bad = vlib.foreign_assumptions(blocks)
+    ck.oblige("Print Assumptions: closed under the global context (%d theorems)" % len(blocks), rc == 0 and not bad and len(blocks) > 0,
+              "unexpected: %s" % bad)
+    return rc == 0 and fresh and not bad
+
+
+def hygiene(ck):
+    bad = []
+    for rel in ("coq/Model/Emitter.v", "coq/Model/EmitterTie.v", "coq/Props/EmitterProps.v"):
+        src = open(os.path.join(vlib.ROOT, rel)).read()
+        for m in re.finditer(r"\b(Axiom|Parameter|Conjecture|Admitted|admit|Variable|Hypothesis|Unset Guard Checking|Unset Universe Checking)\b", src):
+            bad.append("%s: %s" % (rel, m.group(1)))
+    ck.oblige("no Axiom/Parameter/Admitted/admit/guard switches in the emitter model and proofs", not bad, "; ".join(bad))
+
+
+def compact(c):
+    """A case as a short readable history."""
+    out = []
+    for r in c["steps"]:
+        st = r["step"]
+        k = st["k"]
+        if k == "call":
+            t = "%s(%s)" % (st["m"], ",".join(str(x) for x in st.get("a") or []))
+        elif k == "bytes":
+            t = "EmitBytes[%d]" % len(st.get("d") or [])
+        elif k == "clone":
+            t = "Clone(nil)" if st.get("nil") else "Clone(cap %d)" % st.get("cap", 0)
+        elif k in ("append", "finalize"):
+            t = k.capitalize()
+        else:
+            t = "%s(%s)" % (k, st.get("v", 0))
+        out.append(t + ("!" if r["panic"] else ""))
+    return {"id": c["id"], "tag": c["tag"], "listing": c["gen"], "target": "nil" if c["nil"] else "cap %d" % c["cap"],
+            "history ('!' = refused)": " ".join(out), "finalize": c["final"]["fin"]["cls"]}
+
+
+def distinct(cases, pred):
+    seen = set()
+    for c in cases:
+        if pred(c):
+            seen.add(vlib.sha(json.dumps([c["gen"], c["nil"], c["cap"], [(r["step"], r["panic"]) for r in c["steps"]]], sort_keys=True)))
+    return len(seen)
+
+
+def common(ck, pid):
     ck.trusted = list(TRUSTED)
-    raise NotImplementedError
+    harness, herr = vlib.build_harness()
+    if harness is None:
+        ck.oblige("build Go harness against the tree under test", False, herr)
+        return None, None
+    hygiene(ck)
+    t = tie_obligations(ck, harness)
+    return harness, t
+
+
+def report_fails(ck, fails):
+    for f in fails:
+        ck.violation("%s:%s" % (f["clause"], f["key"]), "counterexample", "%s: %s" % (f["clause"], f["detail"]),
+                     {"clause": f["clause"], "key": f["key"], "script": f["script"], "k": f.get("k", 0), "observed": f["detail"]})
+
+
+def no_cex(ck, t, what):
+    broken = [o["name"] for o in ck.obligations if not o["discharged"]]
+    if not broken:
+        return
+    kind = "broken-correspondence" if any(n.startswith("tie") for n in broken) else "broken-theorem"
+    rp = {"broken_obligations": broken}
+    if t and t.get("mismatch_cases"):
+        rp["mismatching_cases"] = [compact(c) for c in t["mismatch_cases"]]
+        rp["script"] = {"tag": t["mismatch_cases"][0]["tag"], "gen": t["mismatch_cases"][0]["gen"], "nil": t["mismatch_cases"][0]["nil"],
+                        "cap": t["mismatch_cases"][0]["cap"], "fill": t["mismatch_cases"][0]["fill"],
+                        "steps": [r["step"] for r in t["mismatch_cases"][0]["steps"]]}
+    ck.violation("obligation", kind, "the %s falsifier found no failing input on the real code; broken: %s" % (what, "; ".join(broken)), rp)
+
+
+def run_c19(ck):
+    harness, t = common(ck, "C19")
+    if harness is None:
+        return
+    prop_file(ck, "C19_emitter.v", C19_V, [
+        "C19_len_le_cap (forall e, reachable e -> 0 <= Len e <= Cap e)",
+        "C19_refused_call_leaves (exec o e = Refused e' -> Bytes, Len, Cap, PC, every label, base unchanged)",
+        "C19_refused_append_leaves (Append cb a e = Refused a' -> a' = a)",
+        "C19_refused_iff (refused <-> width guard / duplicate label / capacity)",
+        "C19_dry_run (nil target vs target without capacity refusal: PC, labels, flags, refusals equal after every prefix)",
+        "C19_room_suffices (capacity >= total size implies no capacity refusal)"])
+    fails, stats = falsify(ck, harness, "c19")
+    report_fails(ck, fails)
+    if not fails:
+        no_cex(ck, t, "C19")
+    cases = t.get("cases") or []
+    nontriv = distinct(cases, lambda c: c["nil"] or any(r["panic"] for r in c["steps"]))
+    ck.cov.update({
+        "evaluations": len(cases) + stats[1],
+        "distinct_nontrivial": nontriv,
+        "rule": "tie: generated scripts run on the real emitter and on the model (checked by Coq); non-trivial for C19 = distinct scripts (by hash of target, listing flag, steps and refusals) with a nil target or at least one refused call. falsifier: every generated history x every capacity 0-3 bytes short of each item end (all capacities 0..size in the thorough tier) + nil-vs-real lockstep; its %d evaluations are in 'evaluations' only" % stats[1],
+        "checker_cmd": "coqc build/work/Run/C19_emitter.v build/work/Run/Cases_EM_*.v (Lemma tie by vm_compute)",
+        "modelled": "asm/emitter.go, asm/flags.go by hand: coq/Model/Emitter.v",
+        "falsifier_histories": stats[0],
+    })
+    for c in [c for c in cases if any(r["panic"] for r in c["steps"])][:3] + [c for c in cases if c["nil"]][:2]:
+        ck.sample(compact(c))
+    ck.sample({"theorems": C19_V})
 
 
 def run_c16(ck):
-    ck.trusted = list(TRUSTED)
-    raise NotImplementedError
+    harness, t = common(ck, "C16")
+    if harness is None:
+        return
+    variant = t.get("variant")
+    if variant is True:
+        prop_file(ck, "C16_emitter_true.v", C16_TRUE_V, [
+            "C16_clone_append (forall ops k targets: observe (append (run head) (run tail (clone))) = observe (run ops))",
+            "C16_clone_append_state (the two emitter states are equal; same calls refused)",
+            "C16_room (same with the static size premise)",
+            "C16_refused_append_leaves", "C16_append_refused_iff"])
+    elif variant is False:
+        ok = prop_file(ck, "C16_emitter_false.v", C16_FALSE_V, ["C16_refuted (the model of the tree's Append, which does not copy base, violates C16)"])
+        ck.oblige("Theorem C16_clone_append for the Append the tree implements (tie: Append does not copy `base`)", False,
+                  "refuted: Theorem C16_refuted (Props.EmitterProps.C16_fails_without_base_copy, %s); witness: Clone before SetBase($8000); BRA L0; L0:; Append -> GetBase 0, Finalize panics"
+                  % ("accepted by Coq on this run" if ok else "NOT accepted on this run"))
+    else:
+        ck.oblige("Theorem C16_clone_append for the Append the tree implements", False, "the tie could not decide which Append the tree implements: " + t.get("detail", ""))
+    fails, stats = falsify(ck, harness, "c16")
+    report_fails(ck, fails)
+    if not fails:
+        no_cex(ck, t, "C16")
+    cases = t.get("cases") or []
+    nontriv = distinct(cases, lambda c: any(r["step"]["k"] == "append" for r in c["steps"]))
+    ck.cov.update({
+        "evaluations": len(cases) + stats[1],
+        "distinct_nontrivial": nontriv,
+        "rule": "tie: generated scripts run on the real emitter and on the model (checked by Coq); non-trivial for C16 = distinct scripts containing Clone and Append. falsifier: every generated history x EVERY split point, clone/append vs direct on the real code, plus frame checks; its %d evaluations are in 'evaluations' only" % stats[1],
+        "checker_cmd": "coqc build/work/Run/C16_emitter_<variant>.v build/work/Run/Cases_EM_*.v (Lemma tie by vm_compute)",
+        "modelled": "asm/emitter.go, asm/flags.go by hand: coq/Model/Emitter.v; Append variant decided by the tie: copies_base = %s" % variant,
+        "falsifier_histories": stats[0],
+    })
+    for c in [c for c in cases if any(r["step"]["k"] == "append" for r in c["steps"])][:4]:
+        ck.sample(compact(c))
+    ck.sample({"theorems": C16_TRUE_V if variant else C16_FALSE_V})
 
 
 def replay(pid, rp):
